@@ -533,10 +533,11 @@ class Spectrum:
             # bin a converted copy so the caller's spectrum is left untouched
             spectrum = self.copy()
             spectrum.to(waveunit)
+            # (the copy's canonical unit name: 'NM' != 'nm' would recurse forever)
             return spectrum.bin(wave, interp_method=interp_method, ends=ends,
                                 preserve_power=preserve_power,
                                 sample_method=sample_method,
-                                fill_value=fill_value, waveunit=waveunit)
+                                fill_value=fill_value, waveunit=spectrum.waveunit)
 
         if interp_method == 'trapz':
             dx = np.diff(wave)/2
